@@ -99,6 +99,9 @@ impl PanicInfo {
         if let Some(i) = l.find("/harness/src/") {
             return format!("HARNESS:{}", &l[i + 13..]);
         }
+        if l.starts_with("src/") {
+            return format!("HARNESS:{}", &l[4..]);
+        }
         // dependency crates: keep crate dir + file
         if let Some(i) = l.find("/registry/src/") {
             let rest = &l[i + 14..];
@@ -109,7 +112,8 @@ impl PanicInfo {
         l.clone()
     }
     pub fn in_harness(&self) -> bool {
-        self.loc.contains("/harness/src/")
+        // the harness is compiled from its own directory, so its locations are relative
+        self.loc.contains("/harness/src/") || self.loc.starts_with("src/")
     }
     pub fn key_loc(&self) -> String {
         // drop the line number: keys must survive unrelated edits
